@@ -19,9 +19,9 @@ META = dict(
     id='C15',
     level='proof',
     technique='Coq proof (recursive-descent parser model vs the precedence grammar; calc/compile/print model) + differential correspondence of the extracted model against ledger + reference evaluator',
-    level_text='Theorems in coq/Properties/Properties_C15.v state, for all expressions of the operator grammar, that the model of parser.cc parses the minimally parenthesised text (and any more heavily parenthesised one) of an abstract expression to exactly its tree (precedence unary > * / > + - > comparisons > & > | > ?:, left associativity, parentheses override), that op_t::print output parses back to the same tree, conditionals included, that the tokenizer model reads every operator spelling, word operator and boolean back from its text whatever the number of blanks between tokens and skips white space in front of any token, that & | ?: evaluate only the operands the grammar says, that compiled identifiers keep the meaning they had at definition, and that constant folding and compilation preserve values. The model is tied to the code by running thousands of generated expressions through freshly built ledger (text as parsed, exact values through verif_rational, re-parse of the printed text) and through the extracted model.',
+    level_text='Theorems in coq/Properties/Properties_C15.v state, for all expressions of the operator grammar, that the model of parser.cc parses the minimally parenthesised text (and any more heavily parenthesised one) of an abstract expression to exactly its tree (precedence unary > * / > + - > comparisons > & > | > ?:, left associativity, parentheses override), that op_t::print output parses back to the same tree, conditionals included, that the tokenizer model reads every operator spelling, word operator and boolean back from its text whatever the number of blanks between tokens and skips white space in front of any token, that & | ?: evaluate only the operands the grammar says, that compiled identifiers keep the meaning they had at definition - in particular that a reference to a user-defined function is bound where it is written, whatever is defined later and whatever parameters its callers have (over the identifier-resolution lines of op.cc re-read on every run) -, and that constant folding and compilation preserve values. The model is tied to the code by running thousands of generated expressions through freshly built ledger (text as parsed, exact values through verif_rational, re-parse of the printed text) and through the extracted model.',
     level_note='Trusted: Coq kernel; extraction + OCaml driver and python harness for the correspondence; the tokenizer is modelled (Model/ExprLex.v) and the model is given the expression text; its round trip is proved for the fixed-spelling tokens only (identifiers and literals: computed examples + correspondence); value arithmetic is Model/Amount.v (C03). Not modelled: strings, dates, regex masks, member lookup (each a lexing failure in the model), sequences as values, per-SCOPE symbol tables (use-before-definition inside a body).',
-    design_ref='DESIGN.md section 7 C15, section 9 F1 (F6 and F34 repaired)',
+    design_ref='DESIGN.md section 7 C15, section 9 F1, F35-F37, F215 (F6 and F34 repaired)',
     assumptions=['expressions avoid built-in function names, the predefined time commodities s/m/h and reserved words as identifiers',
                  'INTEGER values stay within C long',
                  'identifiers are defined before use; every binder name in an expression is distinct (except in the directed scoping cases)',
@@ -692,6 +692,233 @@ def gen_scoping(rng, names):
     return stmts, top
 
 
+def gen_funref(rng, names):
+    """References to user-defined FUNCTIONS from inside other function / lambda bodies (property text: "user-defined
+    variables and functions are lexically scoped").  A chain of 2-4 top-level functions, each written `f(a, b) = body` or
+    `f = (a, b -> body)` and referring to the earlier ones; with
+      (a) callers - top-level functions or lambdas applied on the spot, nested up to 3 deep - whose PARAMETERS carry the
+          names of functions the callees refer to (a closed lambda or a number is passed for them; a function-valued
+          parameter is also called by the body that owns it), and
+      (b) a name defined AGAIN (either spelling) after a body that refers to it.
+    All named definitions are top-level statements; only lambdas applied on the spot nest inside bodies, and the lambdas
+    passed as arguments refer to their own parameter, constants and top-level functions only (so neither F36 - a closure
+    that outlives its creator - nor F37 - a let-bound variable over a parameter - is involved).
+    -> (top-level statements, body)"""
+    num = lambda v: ('lit', Lit(str(v), 0, None))
+    stmts, consts = [], []
+    for _ in range(rng.choice([0, 1, 1, 2])):
+        x = names.fresh('x')
+        stmts.append(('def', x, num(rng.randrange(2, 40))))
+        consts.append(x)
+    shared = names.fresh('p') if rng.random() < 0.5 else None      # the same parameter name in every function
+
+    def arith(terms):
+        rng.shuffle(terms)
+        e = terms[0]
+        for t in terms[1:]:
+            e = ('bin', rng.choice(['+', '+', '*', '-']), e, t)
+        return e
+
+    def small(nums, shadowed):
+        r = rng.random()
+        cs = [c for c in consts if c not in shadowed]
+        if nums and r < 0.5:
+            return ('id', rng.choice(nums))
+        if cs and r < 0.65:
+            return ('id', rng.choice(cs))
+        return num(rng.randrange(1, 9))
+
+    def call_of(f, ar, nums, shadowed):
+        return ('call', ('id', f), [small(nums, shadowed) if rng.random() < 0.7
+                                    else ('bin', rng.choice(['+', '*']), small(nums, shadowed), num(rng.randrange(2, 5)))
+                                    for _ in range(ar)])
+
+    def define(f, ps, body):
+        if rng.random() < 0.7:
+            stmts.append(('deffun', f, ps, body))
+        else:
+            stmts.append(('def', f, ('lam', ps, body)))
+
+    funs = []          # (name, arity), in definition order; a redefinition keeps the name
+    for i in range(rng.choice([2, 2, 3, 3, 4])):
+        f = names.fresh('f')
+        ar = rng.choice([1, 1, 2])
+        ps = [shared] + [names.fresh('p') for _ in range(ar - 1)] if shared else [names.fresh('p') for _ in range(ar)]
+        terms = [small(ps, ()) for _ in range(rng.choice([1, 2]))]
+        used = []
+        if funs:
+            used = rng.sample(funs, min(len(funs), rng.choice([1, 1, 2])))
+            terms += [call_of(g, a, ps, ()) for g, a in used]
+        define(f, ps, arith(terms))
+        funs.append((f, ar))
+        if used and rng.random() < 0.4:
+            g, a = rng.choice(used)                       # (b) g is defined again after f referred to it
+            qs = [names.fresh('p') for _ in range(a)]
+            define(g, qs, arith([('id', qs[0]), num(rng.randrange(50, 500))] + [('id', q) for q in qs[1:]]))
+    last = funs[-1]
+    callees = [g for g in funs[:-1]]
+    depth = rng.choice([1, 1, 2, 2, 3])
+
+    def level(k, nums, shadowed, nested):
+        """the call of the level-k caller, written where `nums` (number-valued parameters of the enclosing on-the-spot
+        lambdas) are visible and the names in `shadowed` are parameters, not top-level functions"""
+        own = []                                           # (name, kind)
+        for _ in range(rng.choice([1, 1, 2])):
+            cands = [g for g, _ in callees if g not in [o for o, _ in own]]
+            r = rng.random()
+            if r < 0.65 and cands:
+                nm = rng.choice(cands)
+            elif r < 0.75 and consts:
+                nm = rng.choice(consts)
+                if nm in [o for o, _ in own]:
+                    nm = names.fresh('p')
+            else:
+                nm = names.fresh('p')
+            own.append((nm, rng.choice(['fun', 'fun', 'num'])))
+        style = rng.choice(['imm', 'imm', 'deffun', 'deflam'])
+        in_nums = (list(nums) if style == 'imm' else [])
+        in_nums = [n for n in in_nums if n not in [o for o, _ in own]] + [o for o, kd in own if kd == 'num']
+        in_shadow = (set(shadowed) if style == 'imm' else set()) | {o for o, _ in own}
+        callable_in = [(g, a) for g, a in funs if g not in in_shadow]
+        terms = [call_of(last[0], last[1], in_nums, in_shadow)]
+        for g, a in callable_in:
+            if rng.random() < 0.3:
+                terms.append(call_of(g, a, in_nums, in_shadow))
+        for o, kd in own:
+            if kd == 'fun' and rng.random() < 0.7:
+                terms.append(('call', ('id', o), [small(in_nums, in_shadow)]))
+            elif kd == 'num' and rng.random() < 0.7:
+                terms.append(('id', o))
+        if k < depth:
+            terms.append(level(k + 1, in_nums, in_shadow, nested or style == 'imm'))
+        body = arith(terms)
+        callable_out = [(g, a) for g, a in funs if g not in shadowed]
+        args = []
+        for o, kd in own:
+            if kd == 'fun':
+                z = names.fresh('p')
+                t = [('id', z)] if rng.random() < 0.7 else []
+                t.append(num(rng.randrange(100, 2000)))
+                if callable_out and rng.random() < 0.25:
+                    g, a = rng.choice(callable_out)
+                    t.append(call_of(g, a, [z], set(shadowed) | {z}))
+                args.append(('lam', [z], arith(t)))
+            else:
+                args.append(small(list(nums), shadowed) if rng.random() < 0.6 else call_of(last[0], last[1], list(nums), shadowed)
+                            if last[0] not in shadowed else num(rng.randrange(1, 9)))
+        ps = [o for o, _ in own]
+        if style == 'imm':
+            return ('call', ('lam', ps, body), args)
+        h = names.fresh('h')
+        if style == 'deffun':
+            stmts.append(('deffun', h, ps, body))
+        else:
+            stmts.append(('def', h, ('lam', ps, body)))
+        return ('call', ('id', h), args)
+
+    top = level(1, [], set(), False)
+    if rng.random() < 0.3:
+        top = ('bin', rng.choice(['+', '-']), top, call_of(last[0], last[1], [], ()))
+    return stmts, top
+
+
+def gen_leak(rng, names):
+    """Definitions INSIDE a function or lambda body (property text: variables and functions are lexically scoped - what a
+    body defines is local to it).  One to three top-level constants; a function, in either spelling, whose body is a
+    sequence that defines a variable (constant, so F37 is not involved) or an inner function, named like a top-level
+    constant or freshly; the final expression uses the top-level names AFTER the function was defined, with or without
+    calling it, or refers to the fresh inner name (lexically unknown there: an error is required).  -> expression"""
+    num = lambda v: ('lit', Lit(str(v), 0, None))
+    consts = [names.fresh('x') for _ in range(rng.choice([1, 2, 3]))]
+    stmts = [('def', x, num(rng.randrange(2, 50))) for x in consts]
+    f, a = names.fresh('f'), names.fresh('p')
+    inner_fun = rng.random() < 0.3
+    reuse = rng.random() < 0.6
+    loc = rng.choice(consts) if reuse else names.fresh('y')
+    if inner_fun:
+        b = names.fresh('p')
+        local = ('deffun', loc, [b], ('bin', rng.choice(['+', '*']), ('id', b), num(rng.randrange(100, 900))))
+        use = ('call', ('id', loc), [('id', a)])
+    else:
+        local = ('def', loc, num(rng.randrange(100, 900)))
+        use = ('bin', rng.choice(['+', '*', '-']), ('id', loc), ('id', a))
+    locals_ = [local]
+    if rng.random() < 0.3:
+        y2 = names.fresh('y')
+        locals_.insert(rng.choice([0, 1]), ('def', y2, num(rng.randrange(2, 9))))
+        use = ('bin', '+', use, ('id', y2))
+    body = ('seq', locals_, use)
+    if rng.random() < 0.6:
+        stmts.append(('deffun', f, [a], body))
+    else:
+        stmts.append(('def', f, ('lam', [a], body)))
+    terms = []
+    if rng.random() < 0.75:
+        terms.append(('call', ('id', f), [num(rng.randrange(1, 9))]))
+    outside = ('id', loc) if not (inner_fun and reuse) else ('id', rng.choice(consts))
+    if inner_fun and not reuse:
+        outside = ('call', ('id', loc), [num(rng.randrange(1, 9))])
+    terms.append(outside)
+    for x in consts:
+        if rng.random() < 0.4:
+            terms.append(('id', x))
+    if rng.random() < 0.5:
+        rng.shuffle(terms)
+    e = terms[0]
+    for t in terms[1:]:
+        e = ('bin', rng.choice(['+', '+', '-', '*']), e, t)
+    return ('seq', stmts, e)
+
+
+def alpha_rename(e, names, m=None):
+    """the same expression with every PARAMETER (of a lambda or of a function definition) renamed to a fresh name, by the
+    rules of lexical scoping: a parameter is visible in the body it belongs to, nested bodies included, until a binder of
+    the same name (an inner parameter, or a definition in a sequence, from that statement on) hides it"""
+    m = m or {}
+    k = e[0]
+    if k == 'id':
+        return ('id', m.get(e[1], e[1]))
+    if k in ('lit', 'bool', 'int'):
+        return e
+    if k in ('neg', 'not', 'abs'):
+        return (k, alpha_rename(e[1], names, m))
+    if k == 'bin':
+        return ('bin', e[1], alpha_rename(e[2], names, m), alpha_rename(e[3], names, m))
+    if k == 'tern':
+        return ('tern', alpha_rename(e[1], names, m), alpha_rename(e[2], names, m), alpha_rename(e[3], names, m), e[4])
+    if k == 'ifonly':
+        return ('ifonly', alpha_rename(e[1], names, m), alpha_rename(e[2], names, m))
+    if k == 'call':
+        return ('call', alpha_rename(e[1], names, m), [alpha_rename(a, names, m) for a in e[2]])
+    if k == 'lam':
+        m2 = dict(m)
+        ps = []
+        for p in e[1]:
+            m2[p] = names.fresh('r')
+            ps.append(m2[p])
+        return ('lam', ps, alpha_rename(e[2], names, m2))
+    if k == 'seq':
+        m = dict(m)
+        out = []
+        for st in e[1]:
+            if st[0] == 'def':
+                b = alpha_rename(st[2], names, m)
+                m.pop(st[1], None)
+                out.append(('def', st[1], b))
+            elif st[0] == 'deffun':
+                m2 = dict(m)
+                m.pop(st[1], None)
+                ps = []
+                for p in st[2]:
+                    m2[p] = names.fresh('r')
+                    ps.append(m2[p])
+                out.append(('deffun', st[1], ps, alpha_rename(st[3], names, m2)))
+            else:
+                out.append(alpha_rename(st, names, m))
+        return ('seq', out, alpha_rename(e[2], names, m))
+    raise ValueError(k)
+
+
 def subtrees(e):
     yield e
     k = e[0]
@@ -787,6 +1014,10 @@ def directed(rng):
         # a variable defined from a parameter, used inside a function whose parameter has the same name
         ('dynscope', ('seq', [('deffun', f, [a], ('seq', [('def', y, ('bin', '*', ('id', a), n(2))), ('deffun', g, [a], ('id', y))],
                                                   ('call', ('id', g), [n(v2)])))],
+                      ('call', ('id', f), [n(v1)]))),
+        # the same through a lambda applied on the spot: fn(vx) = (vt = vx * 2; (vx -> vt + vx)(100)); fn(3)
+        ('dynscope', ('seq', [('deffun', f, [a], ('seq', [('def', y, ('bin', '*', ('id', a), n(2)))],
+                                                  ('call', ('lam', [a], ('bin', '+', ('id', y), ('id', a))), [n(v2 * 10)])))],
                       ('call', ('id', f), [n(v1)]))),
         # a ternary whose branches become constants during compilation
         ('foldtern', ('tern', ('bool', v1 % 2 == 0), ('seq', [('def', x, n(v1))], n(v2)), n(v3), '?')),
@@ -941,6 +1172,8 @@ def kc(r):
         return r
     if r.startswith('E:'):
         return 'E'
+    if r == 'T:an expr':          # verif_rational of a function value (`type:` + value_t::label); the driver writes F:
+        return 'F:'
     return r
 
 
@@ -1180,7 +1413,7 @@ def mk_define_case(rng, stmts, body):
     return c
 
 
-def run_define_batch(ctx, res, pool0, cases):
+def run_define_batch(ctx, res, pool0, cases, cat='define'):
     if not cases:
         return
     lines = open(ctx.path('teach.dat')).read().rstrip('\n').split('\n')
@@ -1202,14 +1435,14 @@ def run_define_batch(ctx, res, pool0, cases):
         iv, mv = out_v[i], model.get(('df%d' % i, 'V'), '!missing')
         res.evaluations += 1
         res.traces += 1
-        res.count('cat:define')
+        res.count('cat:' + cat)
         full = '; '.join(c.tag) + ' [journal define directives]; ' + c.text
         if kc(iv) != kc(mv) and not mv.startswith('ORDER-DEPENDENT'):
             res.disagreements.append(dict(name='C15/define-value', case=full, impl=iv, model=mv))
         j, cells = judge_value(c.ast, iv)
         res.nontrivial.add(full)
         if j:
-            res.violations.append(dict(key='value:define:%s' % j[0],
+            res.violations.append(dict(key='value:%s:%s' % (cat, j[0]),
                                        desc='with the journal directives %s, %s evaluates to %s, lexical scoping requires %s'
                                             % (' / '.join('define ' + d for d in c.tag), c.text, iv, j[1]),
                                        case=dict(expr=c.text, journal='\n'.join('define ' + d for d in c.tag) + '\n' + ctx.journal_text),
@@ -1222,7 +1455,7 @@ def run(ctx, n_override=None):
     res.rule = ('all operator trees of depth <= 2 over 10 leaves (to_int integers, decimals, $ and EUR amounts, braced literals, booleans, zero) '
                 'and 12 binary + 2 unary operators + ?:, a sample (thorough: a bounded-exhaustive sweep over 4 leaves) of depth 3; random trees of '
                 'depth <= 7 with let-bindings, lambdas, function definitions, calls, every operator spelling, redundant parentheses and white '
-                'space variations; directed scoping / short-circuit / precedence shapes; a malformed stream (printed text only); tokenizer texts (word-operator '
+                'space variations; directed scoping / short-circuit / precedence shapes; functions referring to functions below callers whose parameters carry the same names or before a later redefinition (also as define directives, and with every parameter renamed); definitions inside function bodies; a malformed stream (printed text only); tokenizer texts (word-operator '
                 'edges, two-character operators, identifier/number adjacency, {..}) and random trees spelled without any optional blank and with blanks everywhere. '
                 'non-trivial = at least two different node kinds and the reference evaluator determines the value; distinct by text')
     scale = n_override or 1
@@ -1288,6 +1521,40 @@ def run(ctx, n_override=None):
     for k in range(0, len(cases), batch):
         process(ctx, res, run_batch(ctx, res, journal, pool0, cases[k:k + batch], 'sc%d_' % k), 'scope')
     run_define_batch(ctx, res, pool0, dcases)
+    # --- 3c. references to user-defined functions: shadowing caller parameters, later redefinitions; the definitions
+    #         inside the expression and as `define` directives; ORACLES: the reference evaluator (lexical scoping) and
+    #         alpha-renaming of every parameter (same value)
+    nfr = ctx.scale(450, 4000) * scale
+    cases, acases, dcases = [], [], []
+    for i in range(nfr):
+        nm = Names('u' + enc(i))
+        stmts, body = gen_funref(rng, nm)
+        if i % 4 == 3:
+            dcases.append(mk_define_case(rng, stmts, body))
+            continue
+        e = ('seq', stmts, body)
+        ex, ti = rng.choice([0.0, 0.0, 0.2]), rng.choice([0.0, 0.5])
+        cases.append(mk_case(rng, 'funref', e, extra=ex, tight=ti))
+        acases.append(mk_case(rng, 'funref', alpha_rename(e, nm), extra=ex, tight=ti))
+    keep = [i for i in range(len(cases)) if len(cases[i].text) < 3500 and len(acases[i].text) < 3500]
+    cases, acases = [cases[i] for i in keep], [acases[i] for i in keep]
+    for k in range(0, len(cases), batch):
+        ra = list(run_batch(ctx, res, journal, pool0, cases[k:k + batch], 'fr%d_' % k))
+        rb = list(run_batch(ctx, res, journal, pool0, acases[k:k + batch], 'fa%d_' % k))
+        for x, y in zip(ra, rb):
+            if not same_value(x[2], y[2]):
+                res.violations.append(dict(key='scope:alpha-rename-changes-value',
+                                           desc='%s evaluates to %s, but to %s once its parameters are renamed to fresh names (%s)'
+                                                % (x[1].text, x[2], y[2], y[1].text),
+                                           case=dict(expr=x[1].text, journal=ctx.journal_text), observed=x[2], required=y[2]))
+        process(ctx, res, ra, 'funref')
+        process(ctx, res, rb, 'funref')
+    run_define_batch(ctx, res, pool0, dcases, 'funref-define')
+    # --- 3d. definitions local to a function body
+    cases = [mk_case(rng, 'leak', gen_leak(rng, Names('k' + enc(i))), extra=rng.choice([0.0, 0.0, 0.2]), tight=rng.choice([0.0, 0.5]))
+             for i in range(ctx.scale(120, 1500) * scale)]
+    for k in range(0, len(cases), batch):
+        process(ctx, res, run_batch(ctx, res, journal, pool0, cases[k:k + batch], 'lk%d_' % k), 'leak')
     # --- 4. malformed / edge stream: printed text only
     cases = []
     for t in MALFORMED:
